@@ -34,6 +34,14 @@ F_Split = z3.Function('Split', z3.StringSort(), z3.StringSort(), SeqString)
 # codecs (A-codec): canonical name, encoding without BOM, BOM, decode
 F_Canon = z3.Function('Canon', z3.StringSort(), z3.StringSort())
 F_CodecKnown = z3.Function('CodecKnown', z3.StringSort(), z3.BoolSort())
+# str.encode / bytes.decode additionally need a TEXT encoding ('hex', 'zlib',
+# 'rot13', ... are known to codecs.lookup but raise LookupError here)
+F_TextCodec = z3.Function('TextCodec', z3.StringSort(), z3.BoolSort())
+
+
+def text_codec(ctx, enc_e):
+    ctx.assume(z3.Implies(F_TextCodec(enc_e), F_CodecKnown(enc_e)))
+    return F_TextCodec(enc_e)
 F_Enc = z3.Function('Enc', z3.StringSort(), z3.StringSort(), z3.StringSort())
 F_EncNB = z3.Function('EncNB', z3.StringSort(), z3.StringSort(),
                       z3.StringSort())
